@@ -159,7 +159,8 @@ func entry(resource string, options *EntryOptions) (*base.SentinelEntry, *base.B
 	ctx.Input.BatchCount = options.batchCount
 	ctx.Input.Flag = options.flag
 	if len(options.args) != 0 {
-		ctx.Input.Args = options.args
+		// Copy the arguments: options is pooled and its args slice is reused by later entries.
+		ctx.Input.Args = append(ctx.Input.Args[:0], options.args...)
 	}
 	if len(options.attachments) != 0 {
 		ctx.Input.Attachments = options.attachments
